@@ -288,6 +288,9 @@ def run_with_timeout(fn, args=(), timeout=10.0):
 
 def _pmap_worker(args):
     modname, fname, chunk = args
+    import gc
+
+    gc.freeze()  # forked worker: do not let a full collection walk the parent's (copy-on-write) case list
     mod = importlib.import_module(modname)
     fn = getattr(mod, fname)
     out = []
